@@ -64,6 +64,10 @@ SHAPES = [
     ('chain-under-quantifier-in-spec', 'external-spec', 'spec: forall X (p(X) -> exists N$i (1 <= N$i <= 3 and X = N$i)). '
      'assumption: exists N$i (0 <= N$i < 5). spec: forall X (q(X) <-> exists Y$i (X = Y$i and 1 <= Y$i <= 3) or p(X)).',
      'q(X) :- p(X). q(1..3). :- p(X), X < 1. :- p(X), X > 3. :- p(X), X != 1, X != 2, X != 3.', 'input: p/1. output: q/1.'),
+    # symbolic constants that occur ONLY in the second / third guard of a chained comparison (seed C09-16: symbols() looked at the
+    # first guard only, so such a constant was used but never declared)
+    ('symbols-only-in-later-guards', 'external-spec', 'spec: forall X (q(X) <-> p(X) and a < X). assumption: forall X (p(X) -> a < X < zz). '
+     'spec: forall X (q(X) -> aa <= X <= X < zy).', 'q(X) :- p(X), a < X.', 'input: p/1. output: q/1.'),
     ('constants-in-rare-positions', 'external-spec',
      'spec: forall X (p(X) -> exists N$i (X = N$i and 1 <= N$i <= n$i)). spec: forall X$i (p(X$i) <- q(X$i) and X$i = 3 - (-m$i)). '
      'assumption: forall X (q(X) -> X != c$g and X != d$s and X > 0 > k$i * 2). spec: forall X (p(X) -> not X = e).',
